@@ -230,6 +230,30 @@ pub fn dedupe_stress(rng: &mut Rng) -> String {
     format!("Expr: {};\nterminals\nId: /x\\d+/;\nNum: /\\d+/;\n", alts.join("\n    | "))
 }
 
+/// Several terminals with the same string recogniser, referenced inline: which one does the literal resolve to?
+pub fn dup_literal(rng: &mut Rng) -> String {
+    let ops = ["-", "+", "*"];
+    let n = rng.range(1, 2);
+    let mut alts = vec![];
+    let mut terms = String::new();
+    let names = [["Minus", "Neg", "Dash"], ["Plus", "Pos", "Add"], ["Star", "Mul", "Times"]];
+    for i in 0..n {
+        alts.push(format!("Expr '{}' Expr {{left}}", ops[i]));
+        if rng.chance(0.5) {
+            alts.push(format!("'{}' Expr {{right}}", ops[i]));
+        }
+        let k = rng.range(2, 3);
+        let mut idx: Vec<usize> = (0..3).collect();
+        rng.shuffle(&mut idx);
+        for j in 0..k {
+            let meta = if rng.chance(0.4) { format!(" {{{}}}", rng.pick(&["left", "right", "5", "15"])) } else { String::new() };
+            terms.push_str(&format!("{}: '{}'{};\n", names[i][idx[j]], ops[i], meta));
+        }
+    }
+    alts.push("Num".into());
+    format!("Expr: {};\nterminals\n{}Num: /\\d+/;\n", alts.join("\n    | "), terms)
+}
+
 pub fn judge(text: &str, origin: &str, flags: &Flags, k: usize, rcomp: &str, base: &Path, rep: &mut Rep) {
     let case = |extra: Value| json!({"grammar": text, "origin": origin, "argv": flags.argv(), "extra": extra});
     let sig = |kind: &str| format!("{}:{}:{}", kind, fnv(text), fnv(&flags.argv().join(" ")));
@@ -327,7 +351,13 @@ pub fn main(a: &Args) {
             break;
         }
         let (origin, text) = match i % 3 {
-            0 => ("dedupe-stress".to_string(), dedupe_stress(&mut rng)),
+            0 => {
+                if i % 2 == 0 {
+                    ("dedupe-stress".to_string(), dedupe_stress(&mut rng))
+                } else {
+                    ("duplicate-literal".to_string(), dup_literal(&mut rng))
+                }
+            }
             1 => ("ast".to_string(), gen_ast(&mut rng).text()),
             _ => {
                 let (p, t) = &repo[rng.below(repo.len())];
